@@ -92,24 +92,44 @@ def finish_group(p, timeout):
     return rc, (so or b"").decode(errors="replace"), (se or b"").decode(errors="replace")
 
 
+class Infrastructure(Exception):
+    """the library under test cannot be loaded (it is being relinked by a concurrent build): no verdict possible"""
+
+
+def loader_failure(rc, so, se):
+    return rc == 127 and "error while loading shared libraries" in (se + so)
+
+
+def _run_retrying(cmd, cache, timeout):
+    """a harness process that cannot even load libocca.so (shared build being relinked) says nothing about the
+    property: wait for the library and run the case again"""
+    t0 = time.time()
+    while True:
+        p = popen_group(cmd, run_env(cache))
+        rc, so, se = finish_group(p, timeout)
+        if not loader_failure(rc, so, se):
+            return rc, so, se
+        if time.time() - t0 > 1800:
+            raise Infrastructure(se.strip()[-200:])
+        log("libocca.so cannot be loaded (being rebuilt?), waiting")
+        time.sleep(30)
+
+
 def run_plain(hbin, cache, args, timeout=300):
-    p = popen_group([hbin] + args, run_env(cache))
-    return finish_group(p, timeout)
+    return _run_retrying([hbin] + args, cache, timeout)
 
 
 def run_traced(hbin, cache, args, out, timeout=600, follow=True, tstamps=False):
     cmd = ["strace"] + (["-f", "--seccomp-bpf"] if follow else []) + (["-ttt"] if tstamps else []) + \
           ["-o", out, "-xx", "-s", "70000", "-e", "trace=" + TRACE_CALLS, hbin] + args
-    p = popen_group(cmd, run_env(cache))
-    return finish_group(p, timeout)
+    return _run_retrying(cmd, cache, timeout)
 
 
 def run_killed(hbin, cache, args, call, n, out, timeout=300):
     """run the builder (children untraced) and SIGKILL it on entry of its n-th `call`"""
     cmd = ["strace", "-o", out, "-xx", "-s", "200", "-e", "trace=" + call,
            "-e", "inject=%s:signal=SIGKILL:when=%d" % (call, n), hbin] + args
-    p = popen_group(cmd, run_env(cache))
-    return finish_group(p, timeout)
+    return _run_retrying(cmd, cache, timeout)
 
 
 # ------------------------------------------------------------------ strace log -> records
